@@ -38,6 +38,8 @@ CFGS = {
     "map": {"build_network_map": True, "exclude_manufacturer_code": "@L3"},
     "mfg": {"include_manufacturer_code": "@L4"},
     "exclclaim": {"exclude_pgns": "@L5"},
+    "dump": {"dump_to_file": "dumps/shared.jsonl"},
+    "dump2": {"dump_to_file": "dumps/shared.jsonl", "dump_pgns": "@L2"},
 }
 SHARED = {"@L5": [60928, 130306, 127258], "@L1": [129029, "vesselHeading"], "@L2": [127250, 129029, 130816, 126720, 60928, 127257, 130306],
           "@L3": ["Furuno"], "@L4": ["Garmin", "Navico", "Maretron", "Airmar", "Raymarine", "Victron Energy", "B & G", "Furuno"],
@@ -129,6 +131,11 @@ def gen(rng, idx, tier):
             elif created and o["op"] == "feed" and rng.random() < 0.3:
                 o["d"] = nd - 1
     body = body[:60]
+    for i in range(len(cfgs)):
+        if cfgs[i] in ("dump", "dump2") and rng.random() < 0.6:
+            # the dump file is closed in the middle of the history, sometimes twice (context manager plus explicit close)
+            for _ in range(rng.choice([1, 2, 2])):
+                body.insert(rng.randrange(len(body) + 1), {"op": "close_dec", "d": i})
     if rng.random() < 0.25:
         # the wall clock moves on (minutes) between operations: instances created later must behave like instances
         # created in a process of their own at that time
@@ -233,6 +240,19 @@ def _run_ops(ops, only_dec=None, skip_junk=False):
     decs, fm, encs = {}, {}, {}
     enc_fast = {}
     out = []
+    from sim import fs as simfs
+    fsctx = simfs.installed(simfs.FakeFS())
+    fsctx.__enter__()
+    try:
+        return _run_ops_inner(ops, only_dec, skip_junk, vc, shared, before, decs, fm, encs, enc_fast, out)
+    finally:
+        fsctx.__exit__(None, None, None)
+
+
+def _run_ops_inner(ops, only_dec, skip_junk, vc, shared, before, decs, fm, encs, enc_fast, out):
+    from nmea2000.decoder import NMEA2000Decoder
+    from nmea2000.encoder import NMEA2000Encoder
+    from nmea2000.message import NMEA2000Message, NMEA2000Field
     for o in ops:
         r = None
         if o["op"] == "clock":
@@ -261,6 +281,14 @@ def _run_ops(ops, only_dec=None, skip_junk=False):
             d = decs.get(o["d"])
             if d is not None:
                 r = _res(*bus.feed_frame(d, fm[o["d"]], o["f"]))
+        elif o["op"] == "close_dec":
+            d = decs.get(o["d"])
+            if d is not None:
+                try:
+                    d.close()
+                    r = ("closed",)
+                except Exception as e:
+                    r = ("exc", type(e).__name__)
         elif o["op"] == "probe_fast":
             d = decs.get(o["d"])
             if d is not None:
@@ -383,7 +411,7 @@ def execute(plan):
         for d in decs:
             solo = _in_child(_run_ops, ops, d)["results"]
             for i, o in enumerate(ops):
-                if o.get("d") == d and o["op"] in ("feed", "raw", "probe_fast", "create_dec") and solo[i] != res[i]:
+                if o.get("d") == d and o["op"] in ("feed", "raw", "probe_fast", "create_dec", "close_dec") and solo[i] != res[i]:
                     v.append(viol("C16.I1", i, "decoder %d, operation %d (%s): interleaved with other instances it returned %s, alone in a "
                                   "pristine process %s" % (d, i, _op(o), _short(res[i]), _short(solo[i]))))
                     break
